@@ -122,10 +122,13 @@ Record txctx := mkTx {
   tx_msgs : list tmsg;
   tx_fee_payer : Z;             (* explicit fee payer, or the first signer *)
   tx_signers : list Z;          (* accounts whose signatures were verified; contains the fee payer *)
-  tx_fee_ok : bool              (* a settlement transaction offers the fixed fee in a configured denomination (C16) *)
+  tx_fee_ok : bool;             (* a settlement transaction offers the fixed fee in a configured denomination (C16) *)
+  tx_grant_ok : bool            (* no fee granter is named, or it is the payer itself, or its allowance for the payer
+                                   covers the fee that is charged (x/feegrant UseGrantedFees) *)
 }.
 
 Definition settlus_admits (o : ostate) (tx : txctx) : bool :=
+  tx_grant_ok tx &&
   if is_oracle_tx (tx_msgs tx) then
     match tx_msgs tx with
     | [TLeaf (LOracle m)] => validate_feeder o (tx_fee_payer tx) (oracle_validator m)
